@@ -787,6 +787,54 @@ def _str(eng, ctx, args, kwargs):
     yield ctx, S(r)
 
 
+@builtin('functools.reduce')
+def _reduce(eng, ctx, args, kwargs):
+    """functools.reduce(lambda a, b: a or b, xs, False) over a list of booleans: true iff some element is true.
+    (The only use in scope; any other reducer is outside the subset.)"""
+    items = args.items()
+    f, xs = items[0], items[1]
+    init = items[2] if len(items) > 2 else None
+    ok = isinstance(f, Fn) and f.kind == 'closure' and isinstance(f.node, ast.Lambda) and isinstance(f.node.body, ast.BoolOp) \
+        and isinstance(f.node.body.op, ast.Or) and len(f.node.args.args) == 2 \
+        and [getattr(v, 'id', None) for v in f.node.body.values] == [a.arg for a in f.node.args.args]
+    if not ok or init is None or not (isinstance(init, S) and init.sort == 'B' and z3.is_false(init.t)):
+        raise Unsupported('functools.reduce with a reducer other than `lambda a, b: a or b` and initial value False')
+    seq = eng.as_seq(ctx, xs)
+    n = seq.length()
+    fl = seq.fixed_len()
+    if fl is not None:
+        yield ctx, S(z3.Or(*[eng.truth(ctx, it) for it in seq.items()]) if fl else z3.BoolVal(False))
+        return
+    p = z3.Int('rd_p')
+    eng.ext.note('functools.reduce(lambda a, b: a or b, xs, False) on booleans is the disjunction of xs')
+    yield ctx, S(z3.Exists([p], z3.And(p >= 0, p < n, eng.seq_at(ctx, seq, p) == smt.TRUE)))
+
+
+def _any_all(eng, ctx, args, is_any):
+    (xs,) = args.items()
+    seq = eng.as_seq(ctx, xs)
+    n = seq.length()
+    fl = seq.fixed_len()
+    if fl is not None:
+        ts = [eng.truth(ctx, it) for it in seq.items()]
+        return S((z3.Or(*ts) if is_any else z3.And(*ts)) if ts else z3.BoolVal(not is_any))
+    p = z3.Int('aa_p')
+    el = eng.seq_at(ctx, seq, p)
+    if is_any:
+        return S(z3.Exists([p], z3.And(p >= 0, p < n, smt.truthy(el))))
+    return S(z3.ForAll([p], z3.Implies(z3.And(p >= 0, p < n), smt.truthy(el))))
+
+
+@builtin('any')
+def _any(eng, ctx, args, kwargs):
+    yield ctx, _any_all(eng, ctx, args, True)
+
+
+@builtin('all')
+def _all(eng, ctx, args, kwargs):
+    yield ctx, _any_all(eng, ctx, args, False)
+
+
 @builtin('min')
 def _min(eng, ctx, args, kwargs):
     a, b = args.items()
@@ -1040,7 +1088,32 @@ def m_copy(ext, eng, ctx, base, args, kwargs):
     raise Unsupported('.copy on %r' % (base,))
 
 
+def _opaque_dict_view(ext, eng, ctx, base, what):
+    t = base.t
+    ext.note('an opaque dict is iterated as its sequence of (key, value) pairs dkey/dval[0..dlen)')
+    for c, isd in eng.branch(ctx, smt.kind(t) == smt.K_DICT):
+        if not isd:
+            yield c, Raised(Exc('AttributeError'))
+            continue
+        c.assume(smt.dlen(t) >= 0)
+        if what == 'values':
+            yield c, PySeq([View(smt.dval(t), z3.IntVal(0), smt.dlen(t))], 'list')
+        elif what == 'keys':
+            yield c, PySeq([View(smt.dkey(t), z3.IntVal(0), smt.dlen(t))], 'list')
+        else:
+            yield c, DictPairs(t)
+
+
+class DictPairs(Value):
+    """dict.items() of an opaque dict"""
+    def __init__(self, t):
+        self.t = t
+
+
 def m_items(ext, eng, ctx, base, args, kwargs):
+    if isinstance(base, S) and base.sort == 'V':
+        yield from _opaque_dict_view(ext, eng, ctx, base, 'items')
+        return
     sv = _snapshot(eng, ctx, base)
     if sv is None:
         raise Unsupported('.items on %r' % (base,))
@@ -1055,6 +1128,9 @@ def m_keys(ext, eng, ctx, base, args, kwargs):
 
 
 def m_values(ext, eng, ctx, base, args, kwargs):
+    if isinstance(base, S) and base.sort == 'V':
+        yield from _opaque_dict_view(ext, eng, ctx, base, 'values')
+        return
     sv = _snapshot(eng, ctx, base)
     if sv is None:
         raise Unsupported('.values on %r' % (base,))
